@@ -11,11 +11,11 @@ import (
 
 func init() {
 	register(&Property{
-		ID:  "C03",
-		Run: runC03,
-		Explain: "Static structural necessary conditions of graceful exporter shutdown: (R1) BaseExporter.Shutdown stops retry sender, then queue sender, then the wrapped exporter, all three on every path (no early return on error); (R2) QueueBatch.Shutdown stops the queue and then the batcher, both always; Start starts batcher before queue and stops the batcher when the queue fails to start; (R3) every goroutine of queuebatch is joined: WaitGroup.Add before `go` and before any blocking operation of the spawner, deferred Done in the body, Wait in the owner's Shutdown after the stop signal/final flush; (R4) drain order: the memory queue serves queued items before honouring `stopped`, the persistent queue stops dispatching first; (R5) the retry sender's Shutdown closes the stop channel and nothing else does; (R6) completion aggregation: every partial outcome flows into the aggregated error handed to the original Done on every path.",
+		ID:         "C03",
+		Run:        runC03,
+		Explain:    "Static structural necessary conditions of graceful exporter shutdown: (R1) BaseExporter.Shutdown stops retry sender, then queue sender, then the wrapped exporter, all three on every path (no early return on error); (R2) QueueBatch.Shutdown stops the queue and then the batcher, both always; Start starts batcher before queue and stops the batcher when the queue fails to start; (R3) every goroutine of queuebatch is joined: WaitGroup.Add before `go` and before any blocking operation of the spawner, deferred Done in the body, Wait in the owner's Shutdown after the stop signal/final flush; (R4) drain order: the memory queue serves queued items before honouring `stopped`, the persistent queue stops dispatching first; (R5) the retry sender's Shutdown closes the stop channel and nothing else does; (R6) completion aggregation: every partial outcome flows into the aggregated error handed to the original Done on every path.",
 		NotDecided: "Attempt counts (at least once / exactly once) and timing relative to Shutdown returning under a slow backend: need executions.",
-		Assumes: []string{"sync.WaitGroup semantics", "channel close wakes all receivers"},
+		Assumes:    []string{"sync.WaitGroup semantics", "channel close wakes all receivers"},
 	})
 }
 
@@ -356,12 +356,16 @@ func runC03(c *Ctx) {
 				un := len(guardsOf(s.Block())) == 0
 				c.Check(hasParam && hasPrev && un, "ref-counted done merges each outcome unconditionally", p.Pos(s.Pos()), "err = merge(err, outcome) on every path", fmt.Sprintf("includes outcome=%v, includes previous aggregate=%v, unconditional=%v: a later (e.g. shutdown-classified) failure can be masked and the persistent queue deletes the request", hasParam, hasPrev, un))
 			}
-			for _, ci := range calls(fn, func(ci ssa.CallInstruction) bool { return ci.Common().IsInvoke() && ci.Common().Method.Name() == "OnDone" }) {
+			for _, ci := range calls(fn, func(ci ssa.CallInstruction) bool {
+				return ci.Common().IsInvoke() && ci.Common().Method.Name() == "OnDone"
+			}) {
 				u, ok := ci.Common().Args[0].(*ssa.UnOp)
 				c.Check(ok && isFieldAccess(u.X, T, errF), "original Done receives the aggregate", p.Pos(ci.Pos()), "passes the aggregated error", "the original Done does not receive the aggregated error")
 			}
 		} else if _, isSlice := T.Underlying().(*types.Slice); isSlice {
-			for _, ci := range calls(fn, func(ci ssa.CallInstruction) bool { return ci.Common().IsInvoke() && ci.Common().Method.Name() == "OnDone" }) {
+			for _, ci := range calls(fn, func(ci ssa.CallInstruction) bool {
+				return ci.Common().IsInvoke() && ci.Common().Method.Name() == "OnDone"
+			}) {
 				okLoop := loopHasOnlyConditionExit(ci.Block())
 				c.Check(okLoop && ci.Common().Args[0] == ssa.Value(errParam), "multi-done forwards the outcome to every element", p.Pos(ci.Pos()), "range over all, no early exit, same error", "multi-done skips elements or alters the error")
 			}
